@@ -168,6 +168,9 @@ def plan(ctx):
     for label, acts, conf, seed, skip in hdl.deviant_set(True, 0):
         if label.endswith('/stateless_invalid_ke'):
             out.append(('rfc_style_' + label.split('/')[1], None, conf, acts))
+        # an initiator whose SA payloads carry a second, unacceptable proposal with ANOTHER SPI in front of the real one
+        if label.endswith('/sa_two_proposals'):
+            out.append(('two_proposals_' + label.split('/')[1] + '_' + label.split('/')[2], None, conf, acts))
     # honest peers whose configurations differ but are compatible: the responder picks something that is not the
     # initiator's first choice (another key length, a narrower selector, one of two protect entries, no PFS)
     compatible = ('b_narrower_port', 'a_wider_subnet', 'b_other_child_encr', 'b_ike_prf_subset', 'b_two_protect',
